@@ -251,6 +251,8 @@ def serialize_range(value):
         return None
     elif isinstance(value, (list, tuple)):
         return str(Range(*value))
+    elif isinstance(value, Range):
+        return str(value)
     else:
         assert isinstance(value, str)
         return value
